@@ -89,6 +89,20 @@ package innerring
 //@ func (*innerRingIndexer).update
 //@   property C35 C38
 //@   ensures [cache_marked_fresh_only_by_a_complete_refresh] s.lastAccess != old(s.lastAccess) ==> err == nil && innerRingListFetched() && committeeFetched()
+// ... and each position is that of the node's key in its own list: the alphabet index in the
+// committee, the inner ring index in the inner ring keys (an inner ring member outside the
+// committee must not get an alphabet index).
+//@ ghost pred positionInCommittee() int32
+//@ ghost pred positionInInnerRing() int32
+//@ callrule c35_position_in_its_own_list in (*innerRingIndexer).update
+//@   property C35 C38
+//@   callee innerring.keyPosition
+//@   pureeffect
+//@   requires [key_looked_up_is_the_nodes_own] a0 == s.key
+//@   defines (resultOf(a1, "*).Committee") ==> result == positionInCommittee()) && (resultOf(a1, "*).InnerRingKeys") ==> result == positionInInnerRing())
+//@ func (*innerRingIndexer).update
+//@   property C35 C38
+//@   ensures [fresh_cache_holds_each_position_in_its_own_list] s.lastAccess != old(s.lastAccess) ==> s.ind.alphabetIndex == positionInCommittee() && s.ind.innerRingIndex == positionInInnerRing()
 //@ func (*innerRingIndexer).update
 //@   property C35 C38
 //@   ensures [failed_refresh_keeps_cache_stale] err != nil ==> s.lastAccess == old(s.lastAccess)
